@@ -188,6 +188,138 @@ def grid_specs():
         yield {"opt": {"ns": True, "nmc": True}, "files": [[run]]}
 
 
+# ------------------------------------------------------------------------------- run data-file names
+# A run states its data file in two attributes: base_name (the file name minus the extension) and raw_data (the
+# extension).  "The run's data-file name" is base_name followed by raw_data, unless base_name already ends with
+# raw_data (then it is base_name itself).  Runs of the specs below carry explicit "base"/"raw" keys.
+NAME_DIRS = ["", "/data/", "/data.v2/x.y/", "../raw.files/", "D:\\data.dir\\", "C:\\proj\\"]
+NAME_PLAIN = ["run1", "sample_A", "QEx-2019"]
+NAME_DOTTED = ["sample.rep2", "20190420_v1.5_frac3", "a.b.c", "run.1", ".hidden", "frac3.raw.orig"]
+NAME_EXT_DOT = [".mzML", ".mzXML", ".raw", ".RAW", ".mzml", ".d", ".wiff"]
+NAME_EXT_BARE = ["mzML", "raw", "MGF"]
+NAME_FORMS = ["bare", "with-ext", "with-ext-other-case", "with-other-ext"]
+
+
+def _swapcase_ext(ext):
+    return ext.upper() if ext != ext.upper() else ext.lower()
+
+
+def name_base(dir_, stem, form, ext):
+    """base_name of a run: dir + stem (+ a trailing extension, depending on form)."""
+    dotted = ext if ext.startswith(".") else "." + ext
+    if form == "with-ext":
+        return dir_ + stem + dotted
+    if form == "with-ext-other-case":
+        return dir_ + stem + _swapcase_ext(dotted)
+    if form == "with-other-ext":
+        return dir_ + stem + (".mgf" if dotted.lower() != ".mgf" else ".ms2")
+    return dir_ + stem
+
+
+def data_file_names(base, raw):
+    """(the data-file name by the rule above, the set of names accepted).  The set is larger than one name only
+    where the statement leaves room: raw_data written without its leading dot (the name with the dot put in is
+    accepted as well) and a base_name that ends with raw_data up to letter case (base_name itself is accepted)."""
+    strict = base if base.endswith(raw) else base + raw
+    ok = {strict}
+    if not raw.startswith("."):
+        ok.add(base if base.endswith("." + raw) else base + "." + raw)
+    if base.lower().endswith(raw.lower()):
+        ok.add(base)
+    return strict, ok
+
+
+def name_class(base, raw):
+    """stable class id of a base_name / raw_data combination (used in violation case ids)."""
+    last = re.split(r"[/\\]", base)[-1]
+    dirs = base[: len(base) - len(last)]
+    if base.endswith(raw):
+        cls = "base-ends-with-raw-data"
+    elif base.lower().endswith(raw.lower()):
+        cls = "base-ends-with-raw-data-other-case"
+    elif "." in last:
+        cls = "dot-in-last-component"
+    elif "." in dirs.replace("../", "").replace("./", ""):
+        cls = "dot-in-directory-only"
+    else:
+        cls = "plain-base"
+    return cls + ("" if raw.startswith(".") else ":raw-data-without-dot")
+
+
+def _name_run(base, raw, uid, rnd=None, opt=None, scores=None):
+    """a run with explicit base_name/raw_data; 1 spectrum x 1 hit (grid) or 1..2 x 1..2 (random)."""
+    run = {"base": base, "raw": raw, "spectra": []}
+    if rnd is None:
+        k = next(uid)
+        hit = {"pep": "MKCR", "prot": TARGET_ACC[k % 3], "alts": [], "calc": "%.4f" % (500.1234 + 3.5 * k),
+               "mods": [], "scores": {"hyperscore": "%.3f" % (14.5 + k), "expect": "1.768e+00"}, "nmc": 1}
+        run["spectra"].append({"scan": 8 + k, "z": 2 + k % 2, "rt": "%.3f" % (123.372 + k),
+                               "mass": "%.4f" % (989.6051 + k), "hits": [hit]})
+        return run
+    scans = rnd.sample(range(1, 5000), 2)
+    for s in range(rnd.randint(1, 2)):
+        sp = {"scan": scans[s], "z": rnd.randint(1, 4), "rt": "%.3f" % rnd.uniform(0, 7000),
+              "mass": "%.4f" % rnd.uniform(400, 4000), "hits": []}
+        for _h in range(rnd.randint(1, 2)):
+            sp["hits"].append(_hit(rnd, next(uid), opt, scores))
+        run["spectra"].append(sp)
+    return run
+
+
+def name_grid_specs(per_doc=8):
+    """Exhaustive: every directory x stem x base form x raw_data value of the NAME_* tables, one run each, packed
+    per_doc runs to a document in a fixed shuffled order."""
+    combos = [(dr, st, fm, ex) for ex in NAME_EXT_DOT + NAME_EXT_BARE for fm in NAME_FORMS
+              for st in NAME_PLAIN + NAME_DOTTED for dr in NAME_DIRS]
+    # fixed shuffle, so that one document mixes extensions, forms, stems and directories
+    order = list(combos)
+    random.Random("c20-name-grid").shuffle(order)
+    n = len(order)
+    for a in range(0, n, per_doc):
+        uid = itertools.count()
+        runs = [_name_run(name_base(dr, st, fm, ex), ex, uid) for dr, st, fm, ex in order[a:a + per_doc]]
+        yield {"opt": {"ns": bool((a // per_doc) % 2), "nmc": True}, "files": [runs]}
+
+
+def name_spec(seed, i):
+    """random: 1..2 files x 1..4 runs, every run with its own base_name / raw_data combination: random directory
+    (POSIX, Windows, dotted or not), stem of 1..4 tokens joined by dots, one of the 4 base forms, raw_data from the
+    tables or a random 1..5 letter extension in random case, with or without its leading dot."""
+    rnd = random.Random("c20name-%d-%d" % (seed, i))
+    opt = {k: rnd.random() < 0.5 for k in ("ns", "descr", "nmc", "ntt", "nmp", "modpep", "extras", "split")}
+    scores = [(n, rnd.choice(SCORE_KINDS)) for n in rnd.sample(SCORE_NAMES, rnd.randint(0, 3))]
+    uid = itertools.count()
+    files = []
+    for _f in range(rnd.choice([1, 1, 2])):
+        runs = []
+        for _r in range(rnd.randint(1, 4)):
+            sep = rnd.choice(["/", "/", "\\"])
+            parts = [rnd.choice(["data", "data.dir", "2019.04.20", "raw", "v1.5", "exp_7", "my files"])
+                     for _ in range(rnd.randint(0, 3))]
+            dir_ = "".join(p + sep for p in parts)
+            if parts and rnd.random() < 0.5:
+                dir_ = ("D:\\" if sep == "\\" else "/") + dir_
+            toks = [rnd.choice(["sample", "rep2", "v1", "5", "frac3", "20190420", "QE", "b", "raw", "mzML", "01"])
+                    for _ in range(rnd.choice([1, 1, 2, 2, 3, 4]))]
+            stem = rnd.choice([".", "_", "."]).join(toks) if len(toks) == 2 else ".".join(toks)
+            if rnd.random() < 0.6:
+                ext = rnd.choice(NAME_EXT_DOT + NAME_EXT_BARE)
+            else:
+                ext = "".join(rnd.choice("abdflmrwxzMLXRD5") for _ in range(rnd.randint(1, 5)))
+                if rnd.random() < 0.75:
+                    ext = "." + ext
+            form = rnd.choice(NAME_FORMS + ["bare", "bare"])
+            runs.append(_name_run(name_base(dir_, stem, form, ext), ext, uid, rnd, opt, scores))
+        files.append(runs)
+    return {"opt": opt, "files": files}
+
+
+def _run_base_raw(run):
+    if "base" in run:
+        return run["base"], run["raw"]
+    return (run["file"] if run["base_has_ext"] else run["file"][:-len(run["ext"])]), run["ext"]
+
+
 def _attrs(d):
     def esc(v):
         return str(v).replace("&", "&amp;").replace("<", "&lt;").replace('"', "&quot;")
@@ -204,8 +336,8 @@ def render(spec, file_no):
         out.append('<msms_pipeline_analysis date="2018-11-29T15:10:44" summary_xml="x.pepXML">')
     index = 0
     for run in spec["files"][file_no]:
-        base = run["file"] if run["base_has_ext"] else run["file"][:-len(run["ext"])]
-        out.append('<msms_run_summary %s>' % _attrs({"base_name": base, "raw_data_type": "raw", "raw_data": run["ext"]}))
+        base, raw = _run_base_raw(run)
+        out.append('<msms_run_summary %s>' % _attrs({"base_name": base, "raw_data_type": "raw", "raw_data": raw}))
         if opt.get("extras"):
             out.append('<sample_enzyme name="Trypsin"><specificity cut="KR" no_cut="P" sense="C"/></sample_enzyme>')
             out.append('<search_summary %s><search_database local_path="/db.fas" type="AA"/>'
@@ -274,10 +406,15 @@ def expected(spec):
     recs = []
     for runs in spec["files"]:
         for run in runs:
+            if "base" in run:       # explicit base_name / raw_data: the name follows from the two attributes
+                file_, files_ok = data_file_names(run["base"], run["raw"])
+                file_case = "data-file-name:" + name_class(run["base"], run["raw"])
+            else:
+                file_, files_ok, file_case = run["file"], {run["file"]}, "ms-data-file"
             for sp in run["spectra"]:
                 for h in sp["hits"]:
                     prots = [h["prot"]] + list(h["alts"])
-                    recs.append({"file": run["file"], "scan": sp["scan"], "z": sp["z"], "rt": float(sp["rt"]),
+                    recs.append({"file": file_, "files_ok": files_ok, "file_case": file_case, "scan": sp["scan"], "z": sp["z"], "rt": float(sp["rt"]),
                                  "mass": float(sp["mass"]), "calc": float(h["calc"]), "pep": h["pep"],
                                  "mods": h["mods"], "prots": prots,
                                  "decoy": all(p.startswith(PREFIX) for p in prots), "scores": h["scores"]})
@@ -362,8 +499,8 @@ def check_doc(spec, d, tag="doc"):
         seen[key] = seen.get(key, 0) + 1
         r = by_key[key][0]
         r["_row"] = i
-        if str(row["ms_data_file"]) != r["file"]:
-            bad.append(("ms-data-file", "file %r, expected %r" % (str(row["ms_data_file"]), r["file"])))
+        if str(row["ms_data_file"]) not in r["files_ok"]:
+            bad.append((r["file_case"], "file %r, expected %r" % (str(row["ms_data_file"]), r["file"])))
         if int(row["scan"]) != r["scan"]:
             bad.append(("scan", "scan %r, expected %r" % (row["scan"], r["scan"])))
         if int(row["charge"]) != r["z"]:
@@ -477,6 +614,47 @@ def check_hits(tier, seed):
             ck.case(("multi", seed, i), nontrivial=True)
             for case, what in check_doc(spec, d):
                 ck.violation(case, what, _payload("multi", seed, i, spec))
+    return ck
+
+
+def _name_classes(spec):
+    return {name_class(*_run_base_raw(run)) for runs in spec["files"] for run in runs}
+
+
+def check_run_names(tier, seed):
+    n = 150 if tier == "quick" else 3000
+    grid = list(name_grid_specs())
+    n_runs = sum(len(sp["files"][0]) for sp in grid)
+    ck = Check("pepxml_run_names", "mokapot.parsers.pepxml.read_pepxml",
+               "exhaustive: %d runs = %d directories (none, POSIX, Windows, with and without dots) x %d stems (%d "
+               "without dot, %d with dots in the last path component) x %d base forms (bare, ending with raw_data, "
+               "ending with raw_data in the other letter case, ending with another extension) x %d raw_data values (%d "
+               "with leading dot in upper/lower/mixed case, %d without leading dot), 8 runs per document in a fixed "
+               "shuffled order (%d documents, 1 spectrum x 1 hit per run); random: %d documents with "
+               "seed %d: 1..2 files x 1..4 runs x 1..2 spectra x 1..2 hits, every run with its own random "
+               "directory (0..3 components, dotted or not, / or \\ separators), stem of 1..4 tokens joined by dots (two tokens: . or _), base "
+               "form and raw_data (table value or random 1..5 characters, 75%% with leading dot)"
+               % (n_runs, len(NAME_DIRS), len(NAME_PLAIN + NAME_DOTTED), len(NAME_PLAIN), len(NAME_DOTTED),
+                  len(NAME_FORMS), len(NAME_EXT_DOT + NAME_EXT_BARE), len(NAME_EXT_DOT), len(NAME_EXT_BARE),
+                  len(grid), n, seed),
+               "spec -> PepXML text -> read_pepxml(to_df=True); every PSM must carry its run's data-file name = "
+               "base_name followed by raw_data unless base_name already ends with raw_data (where raw_data has no "
+               "leading dot the name with the dot put in is accepted too, where base_name ends with raw_data only up to "
+               "letter case base_name itself is accepted too); all other columns checked as in pepxml_hits; "
+               "non-trivial = some run's base_name has a dot (in its last component or a directory) that does not belong "
+               "to a trailing raw_data, or the document has runs of >= 2 different combination classes")
+    with scratch("c20n_") as d:
+        for i, spec in enumerate(grid):
+            cls = _name_classes(spec)
+            ck.case(("name-grid", i), nontrivial=len(cls) > 1 or any(c.startswith("dot-") for c in cls))
+            for case, what in check_doc(spec, d):
+                ck.violation(case, what, _payload("name-grid", 0, i, spec))
+        for i in range(n):
+            spec = name_spec(seed, i)
+            cls = _name_classes(spec)
+            ck.case(("name-random", seed, i), nontrivial=len(cls) > 1 or any(c.startswith("dot-") for c in cls))
+            for case, what in check_doc(spec, d):
+                ck.violation(case, what, _payload("name-random", seed, i, spec))
     return ck
 
 
@@ -631,6 +809,8 @@ def REPLAY(check_name, violation):
         spec = inp.get("spec")
         if spec is None:
             spec = (list(grid_specs())[inp["i"]] if inp["gen"] == "grid"
+                    else list(name_grid_specs())[inp["i"]] if inp["gen"] == "name-grid"
+                    else name_spec(inp["seed"], inp["i"]) if inp["gen"] == "name-random"
                     else multi_spec(inp["seed"], inp["i"]) if inp["gen"] == "multi"
                     else random_spec(inp["seed"], inp["i"]))
         bad = check_doc(spec, d)
@@ -639,8 +819,15 @@ def REPLAY(check_name, violation):
 
 if __name__ == "__main__":
     a = args()
-    emit([check_hits(a.tier, a.seed), check_rejects(a.tier, a.seed)],
-         ["start_scan == end_scan in every generated spectrum_query (the parser reads end_scan)",
+    emit([check_hits(a.tier, a.seed), check_run_names(a.tier, a.seed), check_rejects(a.tier, a.seed)],
+         ["the data-file name of a run is its base_name followed by its raw_data, or base_name itself when it already "
+          "ends with raw_data (PepXML: base_name is the file name minus the extension, raw_data the extension); "
+          "where the statement leaves room two names are accepted: raw_data without leading dot (name with or "
+          "without the dot put in), base_name ending with raw_data in another letter case (base_name with or "
+          "without raw_data appended)",
+          "base names are taken as opaque strings: no path normalisation is demanded, / and \\ are both just "
+          "characters of the name",
+          "start_scan == end_scan in every generated spectrum_query (the parser reads end_scan)",
           "search-score names are uniform within one file (they may differ between the files of one read_pepxml "
           "call); optional hit attributes are uniform within one read_pepxml call",
           "a search score that only some files report: nothing is demanded of its value in the rows of hits that do "
